@@ -386,3 +386,8 @@ def _reach_helper_ok(h, facts, res):
     if not ok:
         res.violation("W1", "%s|root-test" % h.path, "%s can yield true without `index == 1 && parent is None` (or a cached result)" % h.path, h.loc())
     return ok
+
+
+def thorough(res):
+    from .. import engine
+    engine.sensitivity("C05", res)
